@@ -213,6 +213,12 @@ func main() {
 	c.Ev = ev.New(id, c.Tier, c.Seed, ck.Level)
 	c.Ev.Rule = ck.Rule
 
+	if c.Replay == nil { // stale witnesses of earlier runs with this seed would be confusing
+		old, _ := filepath.Glob(filepath.Join(verifRoot, "replays", fmt.Sprintf("%s-seed%d-*.json", id, c.Seed)))
+		for _, f := range old {
+			os.Remove(f)
+		}
+	}
 	start := time.Now()
 	ck.Run(c)
 
